@@ -460,7 +460,7 @@ func cmdCheck(prop, tier string) int {
 					}
 				}
 				rec["model"] = mv
-				if ok, out, test := tryReplay(f.fr, f.o, mv); test != "" {
+				if ok, out, test := tryReplayMaybe(f.fr, f.o, mv); test != "" {
 					rec["replay_test"] = test
 					rec["replay_output"] = truncate(out, 4000)
 					rec["reproduced_on_real_code"] = ok
@@ -486,7 +486,7 @@ func cmdCheck(prop, tier string) int {
 						}
 						mv[lbl] = v
 					}
-					if ok, out, test := tryReplay(f.fr, f.o, mv); test != "" && ok {
+					if ok, out, test := tryReplayMaybe(f.fr, f.o, mv); test != "" && ok {
 						rec["model"] = mv
 						rec["model_kind"] = "candidate from the quantifier-free part of the obligation, confirmed by replay"
 						rec["replay_test"] = test
@@ -498,7 +498,7 @@ func cmdCheck(prop, tier string) int {
 			}
 			if f.o.Result.Status != "sat" && suffix != "" {
 				// no model (quantified goal): the replay template runs its own small enumeration
-				if ok, out, test := tryReplay(f.fr, f.o, map[string]string{}); test != "" {
+				if ok, out, test := tryReplayMaybe(f.fr, f.o, map[string]string{}); test != "" {
 					rec["replay_test"] = test
 					rec["replay_output"] = truncate(out, 4000)
 					rec["reproduced_on_real_code"] = ok
@@ -716,4 +716,13 @@ func writeBaseline(prop string, frs []*FuncResult) {
 	sort.Strings(names)
 	_ = os.MkdirAll(filepath.Join(verifRoot, "baseline"), 0o755)
 	_ = os.WriteFile(filepath.Join(verifRoot, "baseline", prop+".txt"), []byte(strings.Join(names, "\n")+"\n"), 0o644)
+}
+
+// tryReplayMaybe: the evaluation of seeded changes only asks WHETHER a change is reported; GOVC_NOREPLAY=1 skips the
+// replay of counterexamples there (every registered check runs with replay).
+func tryReplayMaybe(fr *FuncResult, o *Oblig, model map[string]string) (bool, string, string) {
+	if os.Getenv("GOVC_NOREPLAY") != "" {
+		return false, "", ""
+	}
+	return tryReplay(fr, o, model)
 }
